@@ -703,6 +703,33 @@ pub fn run(p: &Params) -> (Stats, &'static str) {
             rt.block_on(reload_by_signal(&mut st, &pki, if p.tier_thorough { 6 } else { 3 }, client_ca));
         }
     }
+    // the configuration matrix alone, once more for every other kind of server / client key the crypto provider can make
+    // ("any certificate is accepted" / "validates" must not depend on the signature scheme of the certificate)
+    let more: Vec<(&'static rcgen::SignatureAlgorithm, &str)> = vec![
+        (&rcgen::PKCS_ECDSA_P384_SHA384, "ecdsa-p384"),
+        (&rcgen::PKCS_ED25519, "ed25519"),
+        (&rcgen::PKCS_ECDSA_P521_SHA512, "ecdsa-p521"),
+        (&rcgen::PKCS_RSA_SHA256, "rsa-2048-sha256"),
+    ];
+    for (i, (alg, name)) in more.iter().enumerate() {
+        if (i as u64 + 1) % p.nshards != p.shard % p.nshards {
+            continue;
+        }
+        if algs.iter().any(|(_, n)| n == name) {
+            continue; // gets the whole programme above (on one of the shards)
+        }
+        if KeyPair::generate_for(alg).is_err() {
+            st.count("key_kinds_the_provider_cannot_generate", 1);
+            continue;
+        }
+        let pki = make_pki(alg);
+        unsafe {
+            std::env::set_var("SSL_CERT_FILE", pki.p("capub.pem"));
+        }
+        rt.block_on(matrix(&mut st, &pki, name));
+        st.target("matrix_runs_with_other_key_kinds", 1);
+        st.cell("key_kind", name);
+    }
     st.exhaustive.push("all 72 cells of the TLS configuration matrix".into());
     st.sample(json!({"cell": "server_cert=trusted name_matches=true skip_verify=false client_cert=other server_client_ca=true", "expect": "rejected (client certificate not issued under the server's client CA)"}));
     rt.shutdown_background();
